@@ -128,6 +128,27 @@ class C06(fw.Prop):
                 ct = f"seal:{EK[0]}:{EK[1]}:{MT}:{ic}:{cfg.suite + 48}:{AK[0]}:{AK[1]}:s.getRespNormal"
                 ops.append(["recv", ["ggc", MT, str(cfg.suite + 48), str(ic), ct], None])
             yield self.make_case({"cfg": cfg.to_json(), "ops": ops, "tag": "aare-counter"})
+        # a meter that starts counting from 0: the first APDU with counter 0 may or may not be accepted (the remembered
+        # counter starts at 0), but never twice; and a counter accepted once stays refused for ever after
+        for seq in ([0, 0, 0, 1, 1, 0], [1, 0, 1, 2, 0]):
+            cfg = cl.Cfg(ek=EK, ak=AK, pre=True, state="READY", meter_title=MT, cic=3, mic=0)
+            ops = []
+            for ic in seq:
+                ops.append(["send", "getReq", 1])
+                ct = f"seal:{EK[0]}:{EK[1]}:{MT}:{ic}:{cfg.suite + 48}:{AK[0]}:{AK[1]}:s.getRespNormal"
+                ops.append(["recv", ["ggc", MT, str(cfg.suite + 48), str(ic), ct], None])
+            yield self.make_case({"cfg": cfg.to_json(), "ops": ops, "tag": "counter-zero"})
+        # the replay floor survives a release: a second association on the same connection refuses the recorded APDUs
+        # of the first one
+        for n in (100, 7):
+            cfg = cl.Cfg(ek=EK, ak=AK, cic=9)
+            p = Path("hls", cfg)
+            p.mic = n - 1
+            first_aare = p.resp("aare", (0, None))
+            first_get = p.resp("getRespNormal")
+            ops = [["send", "aarq", 1], first_aare, ["send", "getReq", 1], first_get, ["send", "rlrq", 1], p.resp("rlre"),
+                   ["send", "aarq", 1], first_aare, p.resp("aare", (0, None)), ["send", "getReq", 1], first_get, p.resp("getRespNormal")]
+            yield self.make_case({"cfg": cfg.to_json(), "ops": ops, "tag": "replay-after-release"})
         # received counter orderings
         for rep in range(60 if deep else 10):
             cfg = cl.Cfg(ek=EK, ak=AK, pre=True, state="READY", meter_title=MT, cic=rng.choice([0, 5]), mic=rng.choice([0, 10, 1000]))
